@@ -500,19 +500,29 @@ class SATEncoder:
 
         # Convert hints to SAT assumptions
         assumptions: list[int] = list(kwargs.pop("assumptions", []) or [])
+        hint_lits: list[int] = []
         if hints:
             for name, val in hints.items():
                 if name in self.model._vars:
                     var = self.model._vars[name]
                     if val in var.bool_vars:
-                        assumptions.append(var.bool_vars[val])
+                        hint_lits.append(var.bool_vars[val])
 
         sat_result = solve_sat(
             self._clauses,
-            assumptions=assumptions or None,
+            assumptions=(assumptions + hint_lits) or None,
             solution_limit=solution_limit,
             **kwargs,
         )
+
+        if sat_result.status == SATStatus.INFEASIBLE and hint_lits:
+            # Hints only guide the search: drop them when they cannot be honoured
+            sat_result = solve_sat(
+                self._clauses,
+                assumptions=assumptions or None,
+                solution_limit=solution_limit,
+                **kwargs,
+            )
 
         if sat_result.status == SATStatus.INFEASIBLE:
             return Result(None, 0, sat_result.iterations, sat_result.evaluations, Status.INFEASIBLE)
